@@ -83,6 +83,8 @@ func accessors(lv *levelCtx, md protoreflect.MessageDescriptor, gm, dm protorefl
 	if !ok {
 		return
 	}
+	curStream = "accessors"
+	defer func() { curStream = "-" }()
 	g2 := proto.Clone(gm.Interface()).ProtoReflect()
 	d2 := proto.Clone(dm.Interface()).ProtoReflect()
 	rv := reflect.ValueOf(g2.Interface())
